@@ -1,8 +1,8 @@
 (* C12 -- set_use_caps: the OR loop sets exactly the listed bits; the duplicate-removal double loop clears
    exactly the later doubles of caps that are still in use when visited, and its subtraction never borrows. *)
-From Coq Require Import ZArith QArith List Bool Lia.
+From Coq Require Import ZArith QArith Qabs List Bool Lia.
 Import ListNotations.
-From PV Require Import Lib.Bits C12.Model C12.Proofs.
+From PV Require Import Lib.Bits C12.Spec Generated.Mangle C12.Model C12.Proofs.
 Open Scope Z_scope.
 
 (* ---------- small list facts ---------- *)
@@ -66,7 +66,7 @@ Lemma set_bits_testbit : forall idx u b,
 Proof.
   unfold set_bits. induction idx as [|i idx IH]; intros u b; cbn [fold_left existsb].
   - rewrite orb_false_r. reflexivity.
-  - rewrite IH. rewrite Z.lor_spec, Z.shiftl_1_l, orb_assoc. f_equal. f_equal.
+  - rewrite IH. unfold gen_set_bit. rewrite Z.lor_spec, Z.shiftl_1_l, orb_assoc. f_equal. f_equal.
     destruct (Z.leb_spec 0 i) as [Hi|Hi].
     + apply Z.pow2_bits_eqb. exact Hi.
     + rewrite Z.pow_neg_r by lia. rewrite Z.bits_0. symmetry. apply Z.eqb_neq. lia.
@@ -75,22 +75,31 @@ Qed.
 Lemma set_bits_nonneg : forall idx u, 0 <= u -> 0 <= set_bits u idx.
 Proof.
   unfold set_bits. induction idx as [|i idx IH]; intros u Hu; cbn [fold_left]; [exact Hu|].
-  apply IH. apply Z.lor_nonneg. split; [exact Hu|]. rewrite Z.shiftl_1_l. apply Z.pow_nonneg. lia.
+  apply IH. unfold gen_set_bit. apply Z.lor_nonneg. split; [exact Hu|]. rewrite Z.shiftl_1_l. apply Z.pow_nonneg. lia.
 Qed.
 
 (* ---------- the decrement never borrows: the loop with `-= 1 << j` is the loop with "clear bit j" ---------- *)
 
 Lemma dedup_step_clear (dup : nat -> nat -> bool) (i : nat) u j :
-  (if is_cap_used u j then (if dup i j then u - Z.shiftl 1 (Z.of_nat j) else u) else u)
+  (if is_cap_used u j then (if dup i j then gen_clear_bit u (Z.of_nat i) (Z.of_nat j) else u) else u)
   = (if Z.testbit u (Z.of_nat j) && dup i j then Z.clearbit u (Z.of_nat j) else u).
 Proof.
   rewrite is_cap_used_testbit. destruct (Z.testbit u (Z.of_nat j)) eqn:T; [|reflexivity].
-  destruct (dup i j); [|reflexivity]. cbn [andb]. rewrite Z.shiftl_1_l. apply sub_pow2_clearbit; [lia|exact T].
+  destruct (dup i j); [|reflexivity]. cbn [andb]. unfold gen_clear_bit. rewrite Z.shiftl_1_l.
+  apply sub_pow2_clearbit; [lia|exact T].
+Qed.
+
+(* the generated inner range  range(i+1, ncaps) *)
+Lemma inner_range_eq n i : inner_range n i = seq (S i) (n - S i).
+Proof.
+  unfold inner_range, gen_inner_start. cbv zeta.
+  replace (Z.to_nat (Z.of_nat i + 1)) with (S i) by lia. reflexivity.
 Qed.
 
 Lemma dedup_inner_never_borrows dup n i u : dedup_inner dup n i u = dedup_inner_clear dup n i u.
 Proof.
-  unfold dedup_inner, dedup_inner_clear. generalize (seq (S i) (n - S i)) as l. intro l. revert u.
+  unfold dedup_inner, dedup_inner_clear. rewrite inner_range_eq.
+  generalize (seq (S i) (n - S i)) as l. intro l. revert u.
   induction l as [|j l IH]; intro u; cbn [fold_left]; [reflexivity|].
   rewrite dedup_step_clear. apply IH.
 Qed.
@@ -103,9 +112,9 @@ Proof.
 Qed.
 
 (* every single subtraction happens with the bit set, i.e. it equals clearing that bit *)
-Lemma decrement_is_clearbit u j : is_cap_used u j = true -> u - Z.shiftl 1 (Z.of_nat j) = Z.clearbit u (Z.of_nat j).
+Lemma decrement_is_clearbit u i j : is_cap_used u j = true -> gen_clear_bit u i (Z.of_nat j) = Z.clearbit u (Z.of_nat j).
 Proof.
-  rewrite is_cap_used_testbit, Z.shiftl_1_l. apply sub_pow2_clearbit. lia.
+  unfold gen_clear_bit. rewrite is_cap_used_testbit, Z.shiftl_1_l. apply sub_pow2_clearbit. lia.
 Qed.
 
 (* ---------- effect of the inner loop on every bit ---------- *)
@@ -251,15 +260,45 @@ Qed.
 
 (* ---------- set_use_caps_spec ---------- *)
 
+(* the generated nested tests in front of the decrement are the specified notion of "doubles":
+   same centre within tol and (same cm within tol, or |cm_i + cm_j| < tol unless allow_neg_doubles) *)
+Lemma same_cap_is_spec tol an a b : same_cap tol an a b = spec_same_cap tol an a b.
+Proof. reflexivity. Qed.
+
+Lemma dup_at_is_spec tol an caps i j : dup_at tol an caps i j = spec_dup_at tol an caps i j.
+Proof. reflexivity. Qed.
+
+Lemma same_cap_spec tol an a b :
+  same_cap tol an a b = true <->
+  (dist2 (cx a) (cx b) < tol * tol)%Q /\
+  ((Qabs (ccm a - ccm b) < tol)%Q \/ ((Qabs (ccm a + ccm b) < tol)%Q /\ an = false)).
+Proof.
+  rewrite same_cap_is_spec. unfold spec_same_cap.
+  rewrite andb_true_iff, orb_true_iff, andb_true_iff, !Qlt_bool_iff, negb_true_iff. reflexivity.
+Qed.
+
+(* if not add: use_caps = 0 *)
+Lemma gen_initial_use_eq add old : gen_initial_use add old = if add then old else 0.
+Proof. destruct add; reflexivity. Qed.
+
+Lemma kept_ext_dup dup dup' sel j : (forall i k, dup i k = dup' i k) -> kept dup sel j = kept dup' sel j.
+Proof.
+  intro H. induction j as [j IH] using (well_founded_induction lt_wf).
+  rewrite !kept_unfold. f_equal. f_equal. apply existsb_ext_in. intros i Hi. apply in_seq in Hi.
+  rewrite H. f_equal. apply IH. lia.
+Qed.
+
 Lemma set_use_caps_spec P idx o b :
   Z.testbit (set_use_caps P idx o) (Z.of_nat b) = spec_bit P idx o b.
 Proof.
-  unfold set_use_caps, spec_bit. cbv zeta.
+  unfold set_use_caps, spec_bit. cbv zeta. rewrite gen_initial_use_eq.
   set (u0 := if o_add o then puse P else 0).
   destruct (o_allow_doubles o).
   - unfold selected. apply set_bits_testbit.
   - rewrite dedup_testbit. destruct (b <? pn P)%nat.
-    + apply kept_ext. intros i _. unfold selected. apply set_bits_testbit.
+    + rewrite (kept_ext_dup _ (spec_dup_at (o_tol o) (o_allow_neg_doubles o) (pcaps P)))
+        by (intros; apply dup_at_is_spec).
+      apply kept_ext. intros i _. unfold selected. apply set_bits_testbit.
     + unfold selected. apply set_bits_testbit.
 Qed.
 
@@ -279,7 +318,7 @@ Qed.
 
 Lemma set_use_caps_nonneg P idx o : (o_add o = true -> 0 <= puse P) -> 0 <= set_use_caps P idx o.
 Proof.
-  intro H. unfold set_use_caps. cbv zeta.
+  intro H. unfold set_use_caps. cbv zeta. rewrite gen_initial_use_eq.
   assert (0 <= (if o_add o then puse P else 0)) as H0 by (destruct (o_add o); [apply H; reflexivity|lia]).
   destruct (o_allow_doubles o); [apply set_bits_nonneg; exact H0|].
   rewrite dedup_never_borrows. apply dedup_clear_nonneg. apply set_bits_nonneg. exact H0.
